@@ -668,6 +668,7 @@ class C06Var(Prop):
         yield from self.md_cases(rng, thorough)
         yield from self.random_octets(rng, thorough)
         yield from self.leak_cases(rng, thorough)
+        yield from factory_twin_cases(rng, tier)          # appended block at the end of the file (hardening I)
 
     # ---- state leaking between calls / objects ----
     def leak_cases(self, rng, thorough):
@@ -1356,3 +1357,128 @@ class C06Var(Prop):
 
 
 PART = C06Var()
+
+
+# ============================================================================================
+# BEGIN factory twins (hardening I) — appended block; the only other line of this change is the
+# `yield from factory_twin_cases(rng, tier)` call in C06Var.cases
+#
+# Finished PDUs that come from the library's factories (FinishedPdu.success_pdu(conf) /
+# FinishedPdu(conf, FinishedParams.success_params())). Key "factory" of a fin_set line (not read by the model op):
+#   {"how": "success_pdu" | "success_params", "twin": "before" | "after" | "both"}
+# The line carries the values the factory is documented to produce (NO_ERROR, DATA_COMPLETE, FILE_RETAINED, no
+# responses, no fault location), which is what the model is built from. The property at (Finished, that parameter set,
+# the line's header configuration): every PDU made that way packs exactly the octets the independent encoder gives, with
+# a data-field length equal to the octets after the header, and round-trips - also while / after ANOTHER PDU made the
+# same way is given another condition code, filestore responses and a fault location through its setters.
+# ============================================================================================
+import core as _core
+
+_FACTORY_VALUES = {"cond": 0, "delivery": 0, "status": 2, "responses": [], "fault": None}
+
+
+class FactoryLineMalformed(Exception):
+    """a line with the key "factory" that does not carry the documented values of the factory (only a case minimiser
+    produces one): a failure of its own kind, so that a minimised case stays inside the domain"""
+
+
+def _fin_from_factory(a, how: str) -> FinishedPdu:
+    conf = _conf(a)
+    if how == "success_pdu":
+        return FinishedPdu.success_pdu(conf)
+    if how == "success_params":
+        return FinishedPdu(pdu_conf=conf, params=FinishedParams.success_params())
+    raise FactoryLineMalformed(f"unknown factory {how!r}")
+
+
+def _op_fin_set_factory(a):
+    fac = a["factory"]
+    how, twin = fac["how"], fac["twin"]
+    if any(a.get(k) != v for k, v in _FACTORY_VALUES.items()):
+        raise FactoryLineMalformed(f"line with factory={how!r} does not carry the documented values {_FACTORY_VALUES!r}")
+    name = "FinishedPdu.success_pdu(conf)" if how == "success_pdu" else "FinishedPdu(conf, FinishedParams.success_params())"
+    ref = spec_fin(a, 0, 0, 2, [], None)          # independent encoder: what every PDU made this way must pack
+
+    def untouched(t, label: str, when: str, was=None):
+        what = f"{name}: a PDU made {label} the one whose setters are called, never modified itself, {when}"
+        try:
+            raw = bytes(t.pack())
+            f = _fin_fields(t)
+        except SelfCheckFailure as e:
+            raise SelfCheckFailure(f"{what}: {e}")
+        _need(raw == ref, f"{what} packs {raw.hex()[:160]}; the standard requires {ref.hex()} for (NO_ERROR, DATA_COMPLETE, "
+                          f"FILE_RETAINED, no responses, no fault location)")
+        if was is not None and f != was:
+            diff = {k: [was.get(k), f.get(k)] for k in sorted(set(was) | set(f)) if was.get(k) != f.get(k)}
+            raise SelfCheckFailure(f"{what} exposes other parameter values than before [was, is]: {diff}")
+        try:
+            _fin_check(t, raw)
+        except SelfCheckFailure as e:
+            raise SelfCheckFailure(f"{what}: {e}")
+        return f
+
+    twins = []
+    if twin in ("before", "both"):
+        twins.append(["before", _fin_from_factory(a, how), None])
+    p = _fin_from_factory(a, how)
+    if twin in ("after", "both"):
+        twins.append(["after", _fin_from_factory(a, how), None])
+    restore = _core.state_snapshot(p)              # clean-up only, see core.state_snapshot
+    try:
+        for rec in twins:
+            rec[2] = untouched(rec[1], rec[0], "right after construction")
+        untouched(p, "as", "right after construction (before any setter call)")
+        pending = None
+        try:
+            _apply_steps(p, a["steps"], FIN_SETTERS)
+        except Exception as e:  # noqa   (a refused setter call: the twins are looked at all the same)
+            pending = e
+        when = f"after the setter calls {[s[0] for s in a['steps']]} on the other PDU"
+        for label, t, was in twins:
+            untouched(t, label, when, was)
+        untouched(_fin_from_factory(a, how), "after the setter calls on", "made by a new call of the factory")
+        if pending is not None:
+            raise pending
+        return _after_setter(p, _fin_fields, _fin_check)
+    finally:
+        restore()
+
+
+def _fin_set_dispatch(plain, by_factory):
+    def op(a):
+        return by_factory(a) if a.get("factory") else plain(a)
+    return op
+
+
+OPS["fin_set"] = _fin_set_dispatch(OPS["fin_set"], _encoder_failure_is_refusal(_op_fin_set_factory))
+
+
+def factory_twin_cases(rng, tier) -> Iterator[Case]:
+    thorough = tier == "thorough"
+    modes = ["before", "after", "both"]
+    k = rng.randrange(3)
+    fault_conds = [c for c in COND_MEMBERS if c not in NO_FAULT_CONDS]
+    for rep in range(8 if thorough else 1):
+        for how in ("success_pdu", "success_params"):
+            for crc in (0, 1):
+                a = rand_conf(rng, crc=crc)
+                seqs = [
+                    [["cond", rng.choice(fault_conds)]],
+                    [["fault", hx(rand_fault(rng))]],
+                    [["responses", [rand_resp(rng)]]],
+                    [["cond", 4], ["responses", [rand_resp(rng)]], ["fault", hx(rand_fault(rng, 2))]],
+                    [["fault", hx(rand_fault(rng))], ["cond", rng.choice(fault_conds)]],
+                    [["responses", [rand_resp(rng), rand_resp(rng)]], ["cond", rng.choice(COND_MEMBERS)]],
+                ]
+                for _ in range(4 if thorough else 2):
+                    steps = []
+                    for _ in range(rng.randint(1, 4)):
+                        s = rng.choice(["fault", "cond", "responses"])
+                        steps.append([s, {"fault": rng.choice([None, hx(rand_fault(rng))]), "cond": rng.choice(COND_MEMBERS),
+                                          "responses": rng.choice([None, [], [rand_resp(rng)], [rand_resp(rng), rand_resp(rng)]])}[s]])
+                    seqs.append(steps)
+                for steps in seqs:
+                    yield Case({"op": "fin_set", **a, **_FACTORY_VALUES, "steps": steps,
+                                "factory": {"how": how, "twin": modes[k % 3]}}, "valid", tag="factory-twin")
+                    k += 1
+# END factory twins (hardening I)
